@@ -20,6 +20,8 @@ def main():
         patch = os.path.join(sd, 'patch.diff')
         r = sh('git -C /repo apply %s' % patch)
         if r.returncode != 0:
+            r = sh('cd /repo && patch -p1 -F3 --no-backup-if-mismatch < %s' % patch)
+        if r.returncode != 0:
             print(sd, 'PATCH-DOES-NOT-APPLY', r.stderr.strip()[:200]); continue
         row = {}
         try:
